@@ -94,6 +94,35 @@ profiles.  The only "evaluation" is `const_eval` of constant expressions / modul
            value may be the given block's own root node, or when a write goes into `<block>.tree` / its children list;
            renaming the given node alone is only reported together with the aliasing; an added value whose origin is not a call
            (a fresh construction) and not the given node is undecided.
+  R10      every profile / block owns the tree it reports.  1 (every store into an attribute `tree` - `X.tree = V`, setattr - in the
+           functions of the module; resolved callees and their decorators; the module's own bindings of a name, wherever they stand;
+           class attributes; stores into / lookups in an object that exists once per process), 3 (flow-sensitive reaching
+           definitions give the defining expressions of V; a package callee is followed into the expressions it returns; the
+           receiver of `.parse` is followed to a lark `Lark(..)` / `Lark.open(..)` construction).  Each defining expression is
+           classified, never evaluated: *own* - a `Tree(..)` construction whose children list is not itself shared, the result of
+           `<lark parser>.parse(..)` (trusted base: lark builds a new tree per parse), `deepcopy(..)`, a package function that
+           returns one of these on every return; *shared* - the result of a function decorated with a memoiser (functools
+           lru_cache / cache and the usual names: for equal arguments it hands out the object it made the first time), a
+           module-level or class-level object or an element of / a lookup in one, a parsed tree that the same function also puts
+           into such an object, a non-constant parameter default (made once, at definition); anything else is not understood.
+           Lemma L8: the builder methods change `self.tree.children` in place and the views read `self.tree`, so two profiles that
+           hold one tree object (or one children list) report each other's modifications.  Violated when a defining expression is
+           shared, undecided when one is not understood, discharged when all are own.
+  R11      every step given to the data-transform builder is added.  1 (the `for` loop over a parameter - through `x or []`,
+           `list(x)`, enumerate - whose body calls add_step / add_termination, also through a conditional callee, or appends to the
+           lists those methods fill), 2 (CFG of the loop body with the branch edges removed that are infeasible under a named
+           assumption about the *form* of the step; a least-fixpoint must-analysis: a node "passes the step over" if every successor
+           the assumption leaves open does - both edges of a test it does not decide, both edges of an inner loop; edges into
+           exception handlers left out), 5 (the forms: a (statement, argument) pair as a `tuple`, as a `list` - the two builtin
+           sequence types a pair comes in, the second one is what json / yaml loaders produce and what from_execute_list of the same
+           module accepts - and each statement name the loop compares the step with, taken from the code), 6 (the constants the
+           tests compare with).  Tests are evaluated three-valued and only by the data model: isinstance / type() against builtin
+           types and the collections.abc classes str, tuple and list are registered with; len() == 2 (the literal's length for a
+           name); truthiness; `is None`; equality with / membership in constants (a tuple or list equals no string or number); facts
+           are applied to the loop variable only where the loop's binding is the one that reaches (after `option, value = option`
+           the name holds something else: unknown).  No step, pair or name is ever fed to the code.  Violated when the next step
+           is inevitably reached without an add call, undecided when only through tests the form does not decide, or when the loop /
+           the calls are not located (several loops, a normalised copy of the steps, match statements).
 """
 
 from __future__ import annotations
@@ -106,6 +135,7 @@ from csverif.astutil import assignments_to, bind_args, body_walk, const_eval, do
 from csverif.cfg import ENTRY, EXIT
 from csverif.grammar import Grammar
 from csverif.q import FuncView, inline, reaching_origins
+from csverif.q import reaching_defs as q_reaching_defs
 
 # list_props entries that are dead by construction (one line of reason each)
 DEAD_LIST_PROPS = {"stage.transform-x86.header": "stage_transform has no nested block, the path can never be a block stack"}
@@ -646,7 +676,7 @@ def run(ctx):
         "is an arbitrary STRING and may contain the separator, so the path state must stay a sequence); the cache key of as_dict - the term stored into / compared with the key "
         "attribute, with temporaries, assignment expressions and expression helpers substituted - covers the whole tree (hash(self.tree); a key made of the leaves only, a count, an "
         "identity or the root's name does not see some modification and the stale view stays); a builder method that is given a block adds a node of its own to the parent (not the "
-        "block's root node, which would be one object at every place the block is attached to and can carry only one place name) and writes nothing into the given block's tree.  Devices: syntax-tree queries, resolved callees and who-may-write checks, CFG dominance "
+        "block's root node, which would be one object at every place the block is attached to and can carry only one place name) and writes nothing into the given block's tree; the object stored as the tree of a profile / block is made for it (a parse result, a Tree(..) with a children list of its own, a deep copy) - not the result of a memoised function, an entry of a module-level cache or another object that exists once per process, because the builder methods append in place and every holder of that object would report the modification; every step given to the data-transform builder - a statement name, a (statement, argument) pair as a tuple or as a list - passes a call of add_step / add_termination on every path of the constructor's loop that the form of the step leaves open (a step passed over is missing from tree, text and view, while the same profile written as text has it).  Devices: syntax-tree queries, resolved callees and who-may-write checks, CFG dominance "
         "and reachability, facts of dominating branch edges with substituted temporaries (kept symbolic), structural comparison of the "
         "Tree(..) terms built in code with grammar productions, case analysis over the literals the code dispatches on, constant folding "
         "of constant tables.  No code of the package is executed or interpreted on data."
@@ -662,6 +692,10 @@ def run(ctx):
                        "STRING token texts that are neither a call of value_to_string nor an unencoded input (another encoder, a comprehension variable)",
                        "the stack discipline of the walk beyond R8 (that `}` removes exactly what `{` added) is not decided",
                        "R8 is flow-insensitive by name: a cut of a name that also holds values that are not composed texts, or a cut at a separator that is not a constant, is undecided",
+                       "R10 judges where the stored tree object comes from, not what happens to it later (a tree handed to a second profile after the store, a caller that keeps a reference); a tree that comes in through a parameter, a shallow copy, "
+                       "or a call the rule cannot resolve is undecided; memoisers are recognised by the decorator names in _MEMO and by lookups in module-/class-level containers only",
+                       "R11 decides the two pair forms (exact builtin tuple / list of length two) and the statement names the loop compares with; other sequence types, pairs of another length, and whether the right one of add_step / add_termination is called "
+                       "(R3 does the name sets) are not judged; a step list that is copied / normalised before the loop, several loops, or a match statement are undecided",
                        "builder classes that bind names by means R3 cannot read (metaclass, opaque decorator, dynamic class body): coverage of the grammar alternatives is undecided there"]
     rep.trusted_base = ["lark grammar loader", "CPython ast", "reference data-transform path list in csverif/tables.py",
                         "BUILDER_RULES (builder class -> grammar rules) and DEAD_LIST_PROPS tables in rules/c11.py; HELPER_ARITY fallback for helpers whose tree cannot be read off",
@@ -676,6 +710,10 @@ def run(ctx):
                         "lemma L5 (lark): Tree.scan_values(pred) yields only non-Tree children that satisfy pred, never a Tree node or its name; statements without an argument are Tree nodes without a token child",
                         "lemma L6 (lark): Tree.__hash__ is hash((data, tuple(children))) and Tree.__eq__ compares data and children, recursively - hash(self.tree) depends on every node name and every token, in order",
                         "lemma L7: a block node carries the name of the place it is attached at; the grammar has the same kind of block at several places and a builder call sequence may give one block object to several places",
+                        "lemma L8: the builder methods append to self.tree.children in place and as_dict / as_text read self.tree, so profiles that hold one Tree object (or one children list) report each other's modifications",
+                        "R10: Lark.parse builds a new Tree per call; functools.lru_cache / functools.cache (and decorators of the names in _MEMO) return the object made for the first call with equal arguments; a parameter default is evaluated once",
+                        "R11: a (statement, argument) step is a two-element tuple or list (exact builtin types); isinstance / len / == on those and on str behave as the CPython data model says (str, tuple, list are collections.abc Sequences; a tuple or list equals no string); "
+                        "a statement is assumed to be able to continue normally (edges into exception handlers are not used as evidence)",
                         "len(x) / id(x) / hash() of an object whose class defines no __hash__ do not change when the object is modified in place (CPython data model)"]
     g = Grammar(ctx.repo)
     r1(ctx, g)
@@ -698,6 +736,8 @@ def run(ctx):
     ctx.import_obligations("R7", c12.r3)
     r8(ctx)
     r9(ctx)
+    r10(ctx)
+    r11(ctx)
 
 
 # ============================================================================================================= R1
@@ -1812,3 +1852,581 @@ def r9(ctx):
         ctx.ob("R9", "ALIAS", f, "the block given is left as it was", not r["mut"],
                "no write goes into the tree of the block that is given" if not r["mut"] else
                f"attaching changes the statements of the block that is given: {sorted(set(r['mut']))} - the same block object attached a second time contributes other statements than the first time")
+
+
+# ============================================================================================================ R10
+# decorators that make a function hand out the object it made for equal arguments again (functools and the usual names)
+_MEMO = {"lru_cache", "cache", "cached", "memoize", "memoized", "memoise", "memoised", "cachedmethod"}
+_CONTAINER_CALLS = {"dict", "list", "set", "OrderedDict", "defaultdict", "WeakValueDictionary", "LRUCache", "ChainMap", "deque"}
+_LOOKUPS = {"get", "setdefault", "__getitem__"}
+_STORERS = {"setdefault", "append", "add", "update", "__setitem__", "insert", "extend"}
+
+
+def _module_bindings(mod):
+    """Module-level name -> list of the expressions it is bound to (None for a binding that is not a plain expression), wherever
+    the binding stands in the module's own scope (a plain statement, inside `with` / `if` / `try` / `for`)."""
+    out = {}
+
+    def names(t):
+        return [n.id for n in ast.walk(t) if isinstance(n, ast.Name)]
+
+    def visit(stmts):
+        for st in stmts:
+            if isinstance(st, (ast.FunctionDef, ast.AsyncFunctionDef, ast.ClassDef)):
+                continue
+            if isinstance(st, ast.Assign):
+                for t in st.targets:
+                    if isinstance(t, ast.Name):
+                        out.setdefault(t.id, []).append(st.value)
+                    elif isinstance(t, (ast.Tuple, ast.List)):
+                        for n in names(t):
+                            out.setdefault(n, []).append(None)
+            elif isinstance(st, ast.AnnAssign) and isinstance(st.target, ast.Name) and st.value is not None:
+                out.setdefault(st.target.id, []).append(st.value)
+            elif isinstance(st, (ast.With, ast.AsyncWith)):
+                for it in st.items:
+                    for n in names(it.optional_vars) if it.optional_vars is not None else []:
+                        out.setdefault(n, []).append(None)
+            elif isinstance(st, (ast.For, ast.AsyncFor)):
+                for n in names(st.target):
+                    out.setdefault(n, []).append(None)
+            for field in ("body", "orelse", "finalbody"):
+                visit(getattr(st, field, None) or [])
+            for h in getattr(st, "handlers", None) or []:
+                visit(h.body)
+
+    visit(mod.tree.body)
+    return out
+
+
+def _is_lark_construction(e):
+    d = dotted(e.func) if isinstance(e, ast.Call) else None
+    return bool(d) and ("." + d + ".").find(".Lark.") >= 0
+
+
+def _is_container_construction(e):
+    return isinstance(e, (ast.Dict, ast.List, ast.Set, ast.DictComp, ast.ListComp, ast.SetComp)) or (isinstance(e, ast.Call) and (dotted(e.func) or "").split(".")[-1] in _CONTAINER_CALLS)
+
+
+def _memo_decorator(h):
+    for d in h.node.decorator_list:
+        name = (dotted(d.func if isinstance(d, ast.Call) else d) or "").split(".")[-1]
+        if name in _MEMO:
+            return name
+    return None
+
+
+class _Own:
+    """Where the object stored as a profile's / block's tree comes from (R10): per defining expression that reaches the store one
+    of ("fresh", why), ("shared", why), (None, why - not understood).  Terms are only classified, never evaluated."""
+
+    def __init__(self, ctx):
+        self.ctx = ctx
+        self.glob = {}
+
+    def bindings(self, mod):
+        if mod.name not in self.glob:
+            self.glob[mod.name] = _module_bindings(mod)
+        return self.glob[mod.name]
+
+    def global_object(self, f, e):
+        """`e` names an object that exists once per process: a module-level name (not a local, not a parameter) or an attribute of
+        the class (`self.X` / `cls.X` / `Class.X` with X bound in a class body).  -> (description, binding expressions) or None."""
+        if isinstance(e, ast.Name):
+            if e.id in params(f.node) or assignments_to(f.node, e.id):
+                return None
+            b = self.bindings(f.module).get(e.id)
+            return (f"the module-level object `{e.id}`", b) if b is not None else None
+        d = dotted(e) or ""
+        if isinstance(e, ast.Attribute) and d.count(".") == 1:
+            head, attr = d.split(".")
+            cname = f.cls if head in ("self", "cls") else head if head in f.module.classes else None
+            if cname and attr != "tree":
+                try:
+                    v = self.ctx.repo.class_attrs(f"{f.module.name}.{cname}").get(attr)
+                except Exception:
+                    v = None
+                if v is not None and not any(a == attr for g in f.module.funcs.values() if g.cls == cname for _s, a, _v in _self_stores(g.node)):
+                    return (f"the class-level object `{d}`", [v])
+        return None
+
+    def is_parser(self, f, e, depth=0):
+        """The receiver of a `.parse(..)` call is a lark parser: a lark construction, a module-level name all of whose bindings are
+        lark constructions, or the result of a package function that returns such a thing (memoised or not - the parser may be one
+        object, each parse makes a new tree: trusted base)."""
+        e = strip_cast(e)
+        if _is_lark_construction(e):
+            return True
+        g = self.global_object(f, e) if isinstance(e, ast.Name) else None
+        if g is not None:
+            return bool(g[1]) and all(b is not None and _is_lark_construction(b) for b in g[1])
+        if isinstance(e, ast.Name):
+            os_ = reaching_origins(self.ctx, f, e, e)
+            return bool(os_) and all(o is not e and self.is_parser(f, o, depth + 1) for o in os_) if depth < 3 else False
+        if isinstance(e, ast.Call) and depth < 3:
+            cal = self.ctx.rs.resolve_call(f, e)
+            h = cal.func if cal.kind == "func" else None
+            if h is not None:
+                rets = [r for r in statements(h.node) if isinstance(r, ast.Return) and r.value is not None]
+                return bool(rets) and all(self.is_parser(h, r.value, depth + 1) for r in rets)
+        return False
+
+    def kept_globally(self, f, made):
+        """Is the object the call `made` creates also put into an object that exists once per process (a hand-made cache)?"""
+        ctx = self.ctx
+
+        def is_made(v, at):
+            v = strip_cast(v)
+            return v is made or (isinstance(v, ast.Name) and any(o is made for o in reaching_origins(ctx, f, v, at)))
+
+        for s in statements(f.node):
+            if isinstance(s, ast.Assign):
+                for t in s.targets:
+                    base = t.value if isinstance(t, (ast.Subscript, ast.Attribute)) else None
+                    g = self.global_object(f, base) if base is not None else None
+                    if g is not None and is_made(s.value, s.value):
+                        return g[0]
+        for c in fn_calls(f.node):
+            if isinstance(c.func, ast.Attribute) and c.func.attr in _STORERS:
+                g = self.global_object(f, c.func.value)
+                if g is not None and any(is_made(a, c) for a in list(c.args) + [k.value for k in c.keywords]):
+                    return g[0]
+        return None
+
+    def classify(self, f, e, at, depth=0):
+        ctx = self.ctx
+        if e is None or depth > 4:
+            return [(None, "not followed further")]
+        fv = FuncView.of(f.node)
+        out = []
+
+        def sub(x):
+            return self.classify(f, x, x if fv.stmt_of(x) is not None else at, depth + 1)
+
+        for o in reaching_origins(ctx, f, e, at):
+            o = strip_cast(o)
+            if isinstance(o, ast.IfExp):
+                out += sub(o.body) + sub(o.orelse)
+            elif isinstance(o, ast.NamedExpr):
+                out += sub(o.value)
+            elif isinstance(o, ast.BoolOp):
+                for v in o.values:
+                    out += sub(v)
+            elif isinstance(o, ast.Call):
+                out.append(self.classify_call(f, o, depth))
+            elif isinstance(o, (ast.Name, ast.Attribute)):
+                g = self.global_object(f, o)
+                if g is not None:
+                    out.append(("shared", f"{g[0]}: one object for every profile made this way"))
+                elif isinstance(o, ast.Name) and o.id in params(f.node):
+                    dflt = param_defaults(f.node).get(o.id)
+                    if dflt is not None and not isinstance(dflt, ast.Constant):
+                        out.append(("shared", f"the default value `{src(dflt)[:40]}` of parameter `{o.id}` is made once, when the function is defined"))
+                    else:
+                        out.append((None, f"parameter `{o.id}`"))
+                else:
+                    out.append((None, f"`{src(o)[:40]}`"))
+            elif isinstance(o, ast.Subscript):
+                g = self.global_object(f, strip_cast(o.value))
+                if g is not None:
+                    out.append(("shared", f"an element of {g[0]}: what is looked up there is handed out to every profile that looks it up"))
+                else:
+                    out.append((None, f"`{src(o)[:40]}`"))
+            else:
+                out.append((None, f"`{src(o)[:40]}`"))
+        return out
+
+    def classify_call(self, f, o, depth):
+        ctx = self.ctx
+        name = (dotted(o.func) or "").split(".")[-1]
+        if name == "deepcopy" and len(o.args) >= 1:
+            return ("fresh", "a deep copy")
+        if name == "Tree" and not isinstance(o.func, ast.Attribute) or (dotted(o.func) or "") in ("lark.Tree", "lark.tree.Tree"):
+            kw = {k.arg: k.value for k in o.keywords if k.arg}
+            kids = o.args[1] if len(o.args) > 1 else kw.get("children")
+            if kids is not None:
+                for tag, why in self.classify(f, kids, kids if FuncView.of(f.node).stmt_of(kids) is not None else o, depth + 1):
+                    if tag == "shared":
+                        return ("shared", "the children list of the new node is " + why)
+            return ("fresh", "a Tree(..) made at the store")
+        if isinstance(o.func, ast.Attribute) and o.func.attr == "parse" and self.is_parser(f, o.func.value):
+            kept = self.kept_globally(f, o)
+            if kept:
+                return ("shared", f"the tree the parser made is also kept in {kept} (and found there by the next caller)")
+            return ("fresh", "the result of a parse (lark makes a new tree per parse)")
+        if isinstance(o.func, ast.Attribute) and o.func.attr in _LOOKUPS:
+            g = self.global_object(f, strip_cast(o.func.value))
+            if g is not None and g[1] and all(b is not None and _is_container_construction(b) for b in g[1]):
+                return ("shared", f"looked up in {g[0]}: what is kept there is handed out to every profile that looks it up")
+        if isinstance(o, ast.Call) and isinstance(o.func, (ast.List, ast.ListComp)):
+            return (None, f"`{src(o)[:40]}`")
+        try:
+            cal = ctx.rs.resolve_call(f, o)
+        except Exception:
+            return (None, f"`{src(o)[:40]}`")
+        h = cal.func if cal.kind == "func" else None
+        if h is not None and h.module.name == f.module.name:
+            memo = _memo_decorator(h)
+            if memo:
+                return ("shared", f"{h.qualname} is memoised (@{memo}): for equal arguments it hands out the very object it made the first time")
+            rets = [r for r in statements(h.node) if isinstance(r, ast.Return) and r.value is not None]
+            if rets and depth < 4:
+                got = [x for r in rets for x in self.classify(h, r.value, r.value, depth + 1)]
+                for tag, why in got:
+                    if tag == "shared":
+                        return ("shared", f"{h.qualname} returns " + why)
+                if all(tag == "fresh" for tag, _w in got):
+                    return ("fresh", f"{h.qualname} returns a new object on every path")
+        return (None, f"`{src(o)[:40]}`")
+
+
+def _tree_stores(f):
+    """(statement, object expression, value expression) for every store into an attribute `tree`: `X.tree = V` (also as one of
+    several targets), `setattr(X, "tree", V)`."""
+    out = []
+    for s in statements(f.node):
+        if isinstance(s, (ast.Assign, ast.AnnAssign)) and s.value is not None:
+            for t in (s.targets if isinstance(s, ast.Assign) else [s.target]):
+                if isinstance(t, ast.Attribute) and t.attr == "tree":
+                    out.append((s, t.value, s.value))
+                elif isinstance(t, (ast.Tuple, ast.List)) and isinstance(s.value, (ast.Tuple, ast.List)) and len(t.elts) == len(s.value.elts):
+                    out.extend((s, te.value, ve) for te, ve in zip(t.elts, s.value.elts) if isinstance(te, ast.Attribute) and te.attr == "tree")
+        elif isinstance(s, ast.Expr) and _is_call(s.value, "setattr") and isinstance(s.value.func, ast.Name) and len(s.value.args) == 3 and _c(s.value.args[1]) == "tree":
+            out.append((s, s.value.args[0], s.value.args[2]))
+    return out
+
+
+def r10(ctx):
+    """Every profile (and block) owns the tree it reports.  All builder methods change `self.tree.children` in place and the views
+    (as_dict, as_text, tree) read `self.tree`; so if the object stored as the tree of one profile is also the tree of another one
+    (or is kept somewhere it is handed out from again), a modification of one profile shows in the views of the other - a profile
+    then reports statements that are not written in its text, and its view changes although it was not modified."""
+    own = _Own(ctx)
+    text = "the tree stored into a profile is an object of its own"
+    n = 0
+    for f in ctx.repo.module(MOD).funcs.values():
+        stores = _tree_stores(f)
+        if not stores:
+            continue
+        shared, unknown, fresh = [], [], []
+        for s, _x, v in stores:
+            for tag, why in own.classify(f, v, v):
+                (shared if tag == "shared" else fresh if tag == "fresh" else unknown).append(f"`{src(s)[:60]}`: {why}")
+        n += len(stores)
+        if shared:
+            ctx.ob("R10", "ALIAS", f, text, False, "; ".join(sorted(set(shared))) + " - the builder methods append to self.tree.children in place, so a modification of one profile "
+                   "shows in the dictionary view, the text and the tree of every other profile that holds the same object (and of profiles made later the same way)", stores[0][0])
+        elif unknown:
+            ctx.undecided("R10", "ALIAS", f, text, f"cannot tell where the stored object comes from: {sorted(set(unknown))}", stores[0][0])
+        else:
+            ctx.ob("R10", "ALIAS", f, text, True, f"{len(stores)} store(s), each of a new object: {sorted(set(fresh))}")
+    # the initial tree: made per instance in the constructor (not a class-level object the instances share)
+    where = f"{MOD}.py::ConfigBlock"
+    init = ctx.repo.func(f"{MOD}.ConfigBlock.__init__") if ctx.repo.has_func(f"{MOD}.ConfigBlock.__init__") else None
+    if init is None or not any(dotted(x) == "self" for _s, x, _v in _tree_stores(init)):
+        cls_tree = ctx.repo.class_attrs(f"{MOD}.ConfigBlock").get("tree") if "ConfigBlock" in ctx.repo.module(MOD).classes else None
+        if isinstance(cls_tree, ast.Call):
+            ctx.ob("R10", "ALIAS", where, "every block starts with a tree of its own", False, f"the tree is the class-level object `{src(cls_tree)[:50]}`, shared by all instances that do not replace it")
+        else:
+            ctx.undecided("R10", "ALIAS", where, "every block starts with a tree of its own", "no store of self.tree located in ConfigBlock.__init__")
+    ctx.rep.count("tree_stores", n, floor=2)
+
+
+# ============================================================================================================ R11
+# what isinstance(x, T) says for an object whose type is exactly one of the builtin types below (CPython data model; the abstract
+# classes are those of collections.abc / typing that str, tuple and list are registered with)
+_BUILTIN_TYPES = {"str", "bytes", "bytearray", "dict", "set", "frozenset", "int", "float", "bool", "complex", "tuple", "list", "memoryview", "range", "type"}
+_ABC_OF_SEQUENCES = {"Sequence", "Iterable", "Sized", "Collection", "Container", "Reversible", "object"}
+_UNKNOWN = object()
+
+
+def _type_names(e):
+    if isinstance(e, ast.Name):
+        return [e.id]
+    if isinstance(e, ast.Attribute):
+        return [e.attr]
+    if isinstance(e, ast.Tuple):
+        parts = [_type_names(x) for x in e.elts]
+        return None if any(p is None for p in parts) else [n for p in parts for n in p]
+    if isinstance(e, ast.BinOp) and isinstance(e.op, ast.BitOr):  # X | Y
+        l, r = _type_names(e.left), _type_names(e.right)
+        return None if l is None or r is None else l + r
+    return None
+
+
+def _is_instance(kind, names):
+    """isinstance(<object of exact builtin type `kind`>, <the types named>) - None when a name is not in the vocabulary."""
+    if names is None:
+        return None
+    if kind in names or set(names) & _ABC_OF_SEQUENCES:
+        return True
+    if "MutableSequence" in names and kind == "list":
+        return True
+    if all(n in _BUILTIN_TYPES or n == "MutableSequence" for n in names):
+        return False
+    return None
+
+
+def _form_truth(ctx, f, test, var, form):
+    """Three-valued truth of `test` (temporaries already substituted) when the name `var` holds a step of the given form:
+    ("pair", "tuple" | "list") - a two-element sequence of that builtin type; ("name", L) - the string L.  Only what follows from
+    the form by the data model is decided (type tests, len, truthiness, identity with None, equality with / membership in
+    constants); everything else is None (unknown).  Nothing is executed: the only values compared are constants of the code."""
+    kind = form[1] if form[0] == "pair" else "str"
+
+    def is_var(e):
+        return isinstance(e, ast.Name) and e.id == var
+
+    def value(e):
+        """A known value of a sub-expression under the form, else _UNKNOWN."""
+        e = strip_cast(e)
+        if is_var(e):
+            return form[1] if form[0] == "name" else _UNKNOWN
+        if _is_call(e, "len") and isinstance(e.func, ast.Name) and len(e.args) == 1 and is_var(strip_cast(e.args[0])):
+            return 2 if form[0] == "pair" else len(form[1])
+        if any(is_var(n) for n in ast.walk(e)):
+            return _UNKNOWN
+        if isinstance(e, ast.Constant):
+            return e.value
+        v = _const(ctx, f, e)
+        return v if v is not None else _UNKNOWN
+
+    def ev(e):
+        e = strip_cast(e)
+        if isinstance(e, ast.UnaryOp) and isinstance(e.op, ast.Not):
+            v = ev(e.operand)
+            return None if v is None else not v
+        if isinstance(e, ast.BoolOp):
+            vals = [ev(v) for v in e.values]
+            if isinstance(e.op, ast.And):
+                return False if any(v is False for v in vals) else True if all(v is True for v in vals) else None
+            return True if any(v is True for v in vals) else False if all(v is False for v in vals) else None
+        if is_var(e):
+            return True if form[0] == "pair" else bool(form[1])
+        if isinstance(e, ast.Call) and isinstance(e.func, ast.Name) and e.func.id == "isinstance" and len(e.args) == 2 and not e.keywords and is_var(strip_cast(e.args[0])):
+            return _is_instance(kind, _type_names(_inl(f, e.args[1])))
+        if isinstance(e, ast.Compare) and len(e.ops) == 1:
+            l, op, r = strip_cast(e.left), e.ops[0], strip_cast(e.comparators[0])
+            # type(x) is T / type(x) == T / type(x) in (T, ..)
+            for a, b in ((l, r), (r, l)):
+                if _is_call(a, "type") and isinstance(a.func, ast.Name) and len(a.args) == 1 and is_var(strip_cast(a.args[0])):
+                    names = _type_names(_inl(f, b))
+                    if names is None or not all(n in _BUILTIN_TYPES for n in names):
+                        return None
+                    if isinstance(op, (ast.Is, ast.Eq, ast.In)) and (a is l or not isinstance(op, ast.In)):
+                        return kind in names
+                    if isinstance(op, (ast.IsNot, ast.NotEq, ast.NotIn)) and (a is l or not isinstance(op, ast.NotIn)):
+                        return kind not in names
+                    return None
+            if isinstance(op, (ast.Is, ast.IsNot)):
+                for a, b in ((l, r), (r, l)):
+                    if is_var(a) and isinstance(b, ast.Constant) and b.value is None:
+                        return isinstance(op, ast.IsNot)
+                return None
+            lv, rv = value(l), value(r)
+            if form[0] == "pair" and (is_var(l) or is_var(r)):
+                other = rv if is_var(l) else lv
+                if other is _UNKNOWN:
+                    return None
+                if isinstance(op, (ast.Eq, ast.NotEq)) and isinstance(other, (str, bytes, int, float, type(None))):
+                    return isinstance(op, ast.NotEq)  # a tuple / list is equal to no string, number or None
+                if isinstance(op, (ast.In, ast.NotIn)) and is_var(l) and isinstance(other, (list, tuple, set, frozenset, dict)) and all(isinstance(x, (str, bytes, int, float, type(None))) for x in other):
+                    return isinstance(op, ast.NotIn)
+                return None
+            if lv is _UNKNOWN or rv is _UNKNOWN:
+                return None
+            try:
+                if isinstance(op, ast.Eq):
+                    return lv == rv
+                if isinstance(op, ast.NotEq):
+                    return lv != rv
+                if isinstance(op, (ast.In, ast.NotIn)) and isinstance(rv, (list, tuple, set, frozenset, dict)):
+                    return (lv in rv) == isinstance(op, ast.In)
+                if isinstance(lv, int) and isinstance(rv, int):
+                    if isinstance(op, ast.Lt):
+                        return lv < rv
+                    if isinstance(op, ast.LtE):
+                        return lv <= rv
+                    if isinstance(op, ast.Gt):
+                        return lv > rv
+                    if isinstance(op, ast.GtE):
+                        return lv >= rv
+            except TypeError:
+                return None
+        return None
+
+    return ev(test)
+
+
+def _steps_loops(ctx, f, sink_attrs):
+    """The `for` loops of f over (a parameter of f) whose body adds to the block: (loop, element name, sink statements)."""
+    fv = FuncView.of(f.node)
+    cfg = ctx.cfg(f)
+    ps = [p for p in params(f.node) if p not in ("self", "cls")]
+
+    def from_param(e, at, d=0):
+        e = strip_cast(e)
+        if d > 5:
+            return False
+        if isinstance(e, ast.Name):
+            os_ = reaching_origins(ctx, f, e, at)
+            return bool(os_) and all((o is e and e.id in ps) if isinstance(o, ast.Name) else (o is not e and from_param(o, o if fv.stmt_of(o) is not None else at, d + 1)) for o in os_)
+        if isinstance(e, ast.BoolOp) and isinstance(e.op, ast.Or):
+            return from_param(e.values[0], at, d + 1) and all(isinstance(v, (ast.List, ast.Tuple)) and not v.elts or (isinstance(v, ast.Constant) and not v.value) for v in e.values[1:])
+        if isinstance(e, ast.IfExp):
+            alts = [x for x in (e.body, e.orelse) if not ((isinstance(x, (ast.List, ast.Tuple)) and not x.elts) or (isinstance(x, ast.Constant) and not x.value))]
+            return len(alts) == 1 and from_param(alts[0], at, d + 1)
+        if _is_call(e, "list", "tuple", "iter") and isinstance(e.func, ast.Name) and len(e.args) == 1 and not e.keywords:
+            return from_param(e.args[0], at, d + 1)
+        return False
+
+    sinks = []
+    for c in fn_calls(f.node):
+        if any(m in ("add_step", "add_termination") for m, _x in _callee_alternatives(f, c.func)):
+            sinks.append(c)
+    sinks += [c for c, r, _x in _appended(f, lambda d: d in sink_attrs)]
+    out, problems = [], []
+    for loop in [s for s in statements(f.node) if isinstance(s, ast.For)]:
+        inside = {id(n) for n in ast.walk(loop)}
+        mine = [c for c in sinks if id(c) in inside]
+        if not mine:
+            continue
+        it, tgt = strip_cast(loop.iter), loop.target
+        if _is_call(it, "enumerate") and isinstance(it.func, ast.Name) and it.args and isinstance(tgt, ast.Tuple) and len(tgt.elts) == 2:
+            it, tgt = strip_cast(it.args[0]), tgt.elts[1]
+        if not isinstance(tgt, ast.Name) or not from_param(it, loop.iter):
+            problems.append(f"`for {src(loop.target)} in {src(loop.iter)[:40]}` is not a loop over the steps given (a parameter), element by element")
+            continue
+        sts = [fv.stmt_of(c) if not isinstance(c, ast.stmt) else c for c in mine]
+        if any(s is None or not cfg.has(s) for s in sts) or not cfg.has(loop):
+            problems.append("an add_step / add_termination call stands in a statement the control-flow graph does not model")
+            continue
+        out.append((loop, tgt.id, sts))
+    return out, problems
+
+
+def r11(ctx):
+    """Every step that is given to the data-transform builder is added to the block.  The builder takes a list of steps; a step is
+    a statement name (a string the constructor dispatches on) or a (statement, argument) pair - a two-element sequence, as a tuple or
+    as a list (what json / yaml loaders make of a pair; ExecuteOptionsBlock.from_execute_list of the same module accepts both).  The
+    text of the same profile has one statement per step, so a step the constructor passes over without calling add_step /
+    add_termination is missing from the built tree, text and dictionary view."""
+    import networkx as nx
+
+    cname = "DataTransformBlock"
+    if cname not in ctx.repo.module(MOD).classes:
+        ctx.undecided("R11", "EXIT", f"{MOD}.py", "every step given to the data-transform builder is added", f"class {cname} not located")
+        return
+    # the lists the tree property wraps
+    sink_attrs = set()
+    for meth in ("add_step", "add_termination"):
+        if ctx.repo.has_func(f"{MOD}.{cname}.{meth}"):
+            m = ctx.repo.func(f"{MOD}.{cname}.{meth}")
+            sink_attrs |= {r for _c0, r, _x in _appended(m, lambda d: bool(d) and d.startswith("self.") and d.count(".") == 1)}
+    located = 0
+    for f in [g for g in ctx.repo.module(MOD).funcs.values() if g.cls == cname and g.qualname.split(".")[-1] not in ("add_step", "add_termination")]:
+        loops, problems = _steps_loops(ctx, f, sink_attrs)
+        for p in problems:
+            located += 1
+            ctx.undecided("R11", "EXIT", f, "every step given to the data-transform builder is added", p)
+        if len(loops) > 1:
+            ctx.undecided("R11", "EXIT", f, "every step given to the data-transform builder is added", f"{len(loops)} loops over the steps add to the block: which of them is responsible for a step is not located")
+            located += 1
+            continue
+        for loop, var, sink_stmts in loops:
+            located += 1
+            cfg = ctx.cfg(f)
+            inside = {id(n) for n in ast.walk(loop)}
+            src_n, targets = cfg.edge_node(loop, "iter"), [cfg.node(loop), EXIT]
+            sink_nodes = {cfg.node(s) for s in sink_stmts}
+            # the statement names the constructor dispatches on: literals the element is compared with / tested for membership in
+            names = []
+            for n in ast.walk(loop):
+                if isinstance(n, ast.Compare) and len(n.ops) == 1 and isinstance(n.left, ast.Name) and n.left.id == var:
+                    rd = q_reaching_defs(ctx, f, var, n)
+                    if not rd or not all(d is loop for d, _v in rd):
+                        continue  # the name holds something else there (the first element of an unpacked pair ...)
+                    v = _const(ctx, f, n.comparators[0])
+                    vs = [v] if isinstance(v, str) else list(v) if isinstance(v, (list, tuple, set, frozenset, dict)) else []
+                    if isinstance(n.ops[0], (ast.In, ast.NotIn, ast.Eq, ast.NotEq)):
+                        names += [x for x in vs if isinstance(x, str) and x not in names]
+            forms = [("pair", "tuple"), ("pair", "list")] + [("name", x) for x in sorted(names)]
+            results = {}
+            for form in forms:
+                dg = cfg.g.copy()
+                maybe = set()
+                for node, st in cfg.stmt.items():
+                    if id(st) not in inside or st is loop:
+                        continue
+                    if isinstance(st, ast.ExceptHandler):
+                        maybe |= {(p, node) for p in cfg.g.predecessors(node)}
+                    elif isinstance(st, (ast.For, ast.AsyncFor)):
+                        maybe |= {(node, s) for s in cfg.g.successors(node)}
+                    elif isinstance(st, (ast.If, ast.While)):
+                        # the facts are about the element the loop binds: they hold for the name only where that binding is the one that reaches
+                        rd = q_reaching_defs(ctx, f, var, st.test)
+                        mentions = any(isinstance(x, ast.Name) and x.id == var for x in ast.walk(_inl(f, st.test, stop={var})))
+                        v = _form_truth(ctx, f, _inl(f, st.test, stop={var}), var, form) if (not mentions or (rd and all(d is loop for d, _v in rd))) else None
+                        t, fl = cfg.edge_node(st, "true"), cfg.edge_node(st, "false")
+                        if v is True and dg.has_edge(node, fl):
+                            dg.remove_edge(node, fl)
+                        elif v is False and dg.has_edge(node, t):
+                            dg.remove_edge(node, t)
+                        elif v is None:
+                            maybe |= {(node, s) for s in (t, fl) if dg.has_edge(node, s)}
+                handler_edges = {e for e in maybe if isinstance(cfg.stmt.get(e[1]), ast.ExceptHandler)}
+                may = dg.copy()
+                may.remove_nodes_from(sink_nodes)
+                # must-analysis (least fixpoint): the next step is reached without an add call from a node if it is from *every*
+                # successor the form leaves open (both edges of a test the form does not decide, both edges of an inner loop);
+                # edges into exception handlers are left out (the normal continuation of a statement is taken to be possible)
+                dg.remove_edges_from([e for e in handler_edges if dg.has_edge(*e)])
+                drops = set(t for t in targets if t in dg)
+                changed = True
+                while changed:
+                    changed = False
+                    for node in dg.nodes:
+                        if node in drops or node in sink_nodes or node == cfg.node(loop):
+                            continue
+                        succ = list(dg.successors(node))
+                        if succ and all(x in drops for x in succ):
+                            drops.add(node)
+                            changed = True
+                witness = None
+                if src_n in drops:
+                    witness, cur, seen_w = [], src_n, set()
+                    while cur not in targets and cur not in seen_w:
+                        seen_w.add(cur)
+                        if cur in cfg.stmt:
+                            witness.append(cfg.describe(cur))
+                        cur = next(iter(dg.successors(cur)))
+                if witness is not None:
+                    results[form] = ("violated", witness)
+                elif any(src_n in may and tg in may and nx.has_path(may, src_n, tg) for tg in targets):
+                    results[form] = ("undecided", None)
+                else:
+                    results[form] = ("ok", None)
+            for kind in ("tuple", "list"):
+                verdict, witness = results[("pair", kind)]
+                text = f"a (statement, argument) step given as a {kind} is added to the block"
+                if verdict == "violated":
+                    ctx.ob("R11", "EXIT", f, text, False, f"for a two-element {kind} the tests of the loop body are decided by its type and length alone, and the next step is reached without a call of "
+                           f"add_step / add_termination: {' -> '.join(witness)[:300]} - the step is passed over silently and is missing from the built tree, text and dictionary view "
+                           "(the same profile written as text has it)", loop)
+                elif verdict == "undecided":
+                    ctx.undecided("R11", "EXIT", f, text, "a path through the loop body that passes no add_step / add_termination call exists only through tests the form of the step does not decide", loop)
+                else:
+                    ctx.ob("R11", "EXIT", f, text, True, f"every path through the loop body that a two-element {kind} can take passes a call of add_step / add_termination")
+            bad = sorted(x for (k, x), (verdict, _w) in results.items() if k == "name" and verdict == "violated")
+            und = sorted(x for (k, x), (verdict, _w) in results.items() if k == "name" and verdict == "undecided")
+            text = "a statement name the constructor dispatches on is added to the block"
+            if not names:
+                ctx.undecided("R11", "EXIT", f, text, "no comparison of the step with constant statement names located in the loop")
+            elif bad:
+                ctx.ob("R11", "EXIT", f, text, False, f"given as a string, these names reach the next step without a call of add_step / add_termination: {bad}", loop)
+            elif und:
+                ctx.undecided("R11", "EXIT", f, text, f"not decided by the name alone: {und}", loop)
+            else:
+                ctx.ob("R11", "EXIT", f, text, True, f"each of {sorted(names)} given as a string passes a call of add_step / add_termination on every path")
+    if not located:
+        ctx.undecided("R11", "EXIT", f"{MOD}.py::{cname}", "every step given to the data-transform builder is added", "no loop over the steps given (a parameter) that calls add_step / add_termination located")
